@@ -14,7 +14,7 @@ import replicat.repository as R
 from replicat.backends.local import Local
 
 from vt import lift, rt, world
-from vt.core import shard, tick
+from vt.core import digits, shard, tick
 
 rt.quiet_repository()
 REPLAY = bool(os.environ.get('VT_REPLAY'))
@@ -550,9 +550,8 @@ def e_sizes(k: int) -> bool:
     pre: shard(11 * 11 * 2 * 2)[0] <= k < shard(11 * 11 * 2 * 2)[1]
     post: _
     """
-    k = realize(k)
+    i0, i1, kind, chi = digits(k, [11, 11, 2, 2])
     with NoTracing():
-        i0, i1, kind, chi = _decode(k, [11, 11, 2, 2])
         return _e('e_sizes', [POOL[i0], POOL[i1], 7], kind, 0, 0, 2, 1, chi)
 
 
@@ -561,9 +560,8 @@ def e_args(k: int) -> bool:
     pre: shard(9 * 3 * 3 * 2)[0] <= k < shard(9 * 3 * 3 * 2)[1]
     post: _
     """
-    k = realize(k)
+    argcode, i0, i1, i2 = digits(k, [9, 3, 3, 2])
     with NoTracing():
-        argcode, i0, i1, i2 = _decode(k, [9, 3, 3, 2])
         return _e('e_args', [[0, 5, 10][i0], [0, 4, 17][i1], [0, 9][i2]], 0, argcode, 0, 2, 1, 0)
 
 
@@ -572,9 +570,8 @@ def e_pre(k: int) -> bool:
     pre: shard(6 * 4 * 3 * 2)[0] <= k < shard(6 * 4 * 3 * 2)[1]
     post: _
     """
-    k = realize(k)
+    precode, i0, i1, kind = digits(k, [6, 4, 3, 2])
     with NoTracing():
-        precode, i0, i1, kind = _decode(k, [6, 4, 3, 2])
         return _e('e_pre', [[0, 3, 8, 17][i0], [0, 4, 9][i1], 6], 0 if kind == 0 else 3, 1, precode, 2, 0, 0)
 
 
@@ -583,9 +580,8 @@ def e_cfg(k: int) -> bool:
     pre: shard(5 * 5 * 3 * 3)[0] <= k < shard(5 * 5 * 3 * 3)[1]
     post: _
     """
-    k = realize(k)
+    cfgi, chi, conci, i0 = digits(k, [5, 5, 3, 3])
     with NoTracing():
-        cfgi, chi, conci, i0 = _decode(k, [5, 5, 3, 3])
         return _e('e_cfg', [[0, 9, 40][i0], 12, 21], 1, 0, 0, [1, 2, 5][conci], cfgi, chi)
 
 
@@ -601,7 +597,6 @@ def e_full(j: int) -> bool:
     pre: shard(FULL_N // FULL_STRIDE)[0] <= j < shard(FULL_N // FULL_STRIDE)[1]
     post: _
     """
-    j = realize(j)
+    i0, i1, i2, kind, argcode, precode, conci, cfgi, chi = digits(j * FULL_STRIDE, FULL_RADICES)
     with NoTracing():
-        i0, i1, i2, kind, argcode, precode, conci, cfgi, chi = _decode(j * FULL_STRIDE, FULL_RADICES)
         return _e('e_full', [POOL[i0], POOL[i1], [0, 6, 23][i2]], kind, argcode, precode, [1, 2, 5][conci], cfgi, chi)
